@@ -150,7 +150,7 @@ class IgnoreLast(torch.nn.Module):
 
 @st.composite
 def branch_case(draw):
-    sc = draw(scenario(models=("linear", "mlp", "naked", "bs"), allow_prev_hedge=False, min_steps=2, max_steps=8))
+    sc = draw(scenario(models=("linear", "mlp", "naked", "bs"), allow_prev_hedge=False, min_steps=2, max_steps=8, long_horizon=40))
     sc["inputs"] = [f for f in sc["inputs"] if f != "prev_hedge"] or ["underlier_spot"]
     if sc["ul"]["type"] == "VasicekRate":
         sc["inputs"] = [f for f in sc["inputs"] if "log" not in f] or ["underlier_spot"]
@@ -228,7 +228,8 @@ class Recording(torch.nn.Module):
 @st.composite
 def feedback_case(draw):
     ul = draw(primary_spec(types=STOCKS + ["CIRRate"], dtype="any", cost=True, dts=[1 / 250, 1 / 52]))
-    rounds = draw(st.lists(st.tuples(st.integers(1, 6), st.integers(2, 7), st.integers(1, 3), seed_s), min_size=1, max_size=3))
+    steps_s = st.one_of(st.integers(2, 7), st.integers(2, 7), st.integers(2, 7), st.sampled_from([3, 257, 258]))  # rarely a long contract
+    rounds = draw(st.lists(st.tuples(st.integers(1, 6), steps_s, st.integers(1, 3), seed_s), min_size=1, max_size=3))
     pos = draw(st.integers(0, 2))
     others = draw(st.lists(st.sampled_from(["underlier_spot", "zeros", "moneyness", "time_to_maturity", "max_moneyness"]),
                            min_size=0, max_size=2, unique=True))
